@@ -33,6 +33,26 @@ Theorem C04_single_transfer :
 Proof. exact single_transfer_lemma. Qed.
 Print Assumptions C04_single_transfer.
 
+(* ... within copyGraph.  The whole call can read a node once more in Copy's PROLOGUE (known
+   finding prologue-read-twice): a non-manifest root resolved through a ReferenceFetcher, and the
+   manifest + config blob read by WithTargetPlatform on an image-manifest root, are read there
+   without feeding the cache and fetched again while copying.  Refutation of the clause for the
+   whole call, and the bound that does hold: *)
+Theorem C04_single_fetch_refuted_by_prologue :
+  exists g c d0 tr st pro n,
+    accepts g c d0 tr = Some st /\ returned st = Some true /\
+    pro = prologue_reads true (c_root c) None /\ g_ismf g n = false /\
+    reads_in_call n pro tr = 2.
+Proof. exact prologue_read_twice_refuted. Qed.
+Print Assumptions C04_single_fetch_refuted_by_prologue.
+
+Theorem C04_reads_in_call_bound :
+  forall (g : graph) (c : cfg) (d0 : list node) (tr : list event) (st : state) (n : node)
+         (pro : list node),
+    accepts g c d0 tr = Some st -> reads_in_call n pro tr <= count_occ Nat.eq_dec pro n + 1.
+Proof. exact reads_in_call_bound. Qed.
+Print Assumptions C04_reads_in_call_bound.
+
 (* every callback is invoked at most once per node *)
 Theorem C04_callbacks_at_most_once :
   forall (g : graph) (c : cfg) (d0 : list node) (tr : list event) (st : state) (n : node),
